@@ -277,6 +277,21 @@ def run(R):
                 break
         else:
             R.traces += 1
+    # ---- a Grammar() construction started from the inline Python of a description that is being compiled (an option value
+    # of a constructor form is evaluated at compile time): the outer compilation goes on as if nothing had happened ----
+    NEST = 'Opt(x) = x >> "!"\nSome(x) = [x, x]\nfirst = Sep("a", ",", allow_trailer=`%s`)\nstart = Opt("b") | Some("c")\n'
+    inner = '__import__("sourcer").Grammar("start = Opt(\'q\') >> Some(\'r\')") is not None'
+    R.count('nested-construction', 'constructor-option', nontrivial=True)
+    try:
+        plain, nested = Grammar(NEST % 'True'), Grammar(NEST % inner)
+        a = [outcome(plain, t) for t in ('b!', 'cc', 'b', 'c', '')]
+        b = [outcome(nested, t) for t in ('b!', 'cc', 'b', 'c', '')]
+        if a != b:
+            R.counterexample('nested-construction', 'module-depends-on-a-nested-construction', {'grammar': NEST % inner}, a, b)
+        else:
+            R.traces += 1
+    except Exception as e:                      # noqa
+        R.counterexample('nested-construction', 'construction-raised:' + type(e).__name__, {'grammar': NEST % inner}, 'a grammar module', str(e)[:150])
     # ---- re-entrant parses from every kind of callback ----
     reent = {
         'apply': 'class W { v: /[a-z]+/ }\nInner = W\nstart = [W, "(" >> /[a-z]+/ |> `lambda s: Inner.parse(s)`, ")"]\n',
